@@ -3,12 +3,104 @@
 Same runs as C02 (props/mem_machine.py); this check judges body executions (0 for a
 live key, 1 otherwise), check_call_in_cache and that every call Python accepts is
 accepted by the cached wrapper.
+
+Second, small tier: functions of the `__main__` script.  A script that caches one of
+its own functions is run several times as a real interpreter process, from different
+working directories and with its path spelled differently (job.py, ./job.py,
+sub/../job.py, an absolute path): all these processes share one cache directory and
+only the first one executes the function.
 """
+import os, sys, random, subprocess, tempfile, shutil, hashlib
+from sim.harness import H, hz_runs, REPO
 from . import c02 as _c02
-from .c02 import plan, shrink, gen_case, LEVEL, TIMEOUT_S, RULE, REAL_CODE, STUBBED, ASSUMPTIONS, N_RUNS  # noqa
+from .c02 import shrink as _shrink, gen_case, LEVEL, TIMEOUT_S, REAL_CODE, STUBBED, ASSUMPTIONS, N_RUNS  # noqa
 
 PROP = "C06"
+RULE = _c02.RULE + ("  Tier 2: a script caching one of its own (__main__) functions is run 3-5 times as a real process with "
+                    "other working directories / spellings of its path; one evaluation = one such history")
+N_SCRIPT = {"quick": 8, "thorough": 240}
+
+SCRIPT = '''
+import sys, os
+from joblib import Memory
+N = []
+
+
+def f(x, y=2):
+    N.append(x)
+    return ("main", x, y)
+
+
+if __name__ == "__main__":
+    g = Memory(sys.argv[1], verbose=0).cache(f)
+    chk = [bool(g.check_call_in_cache(1)), bool(g.check_call_in_cache(3, y=4))]
+    vals = [g(1), g(3, y=4), g(y=2, x=1)]
+    print("RESULT", repr((len(N), chk, vals)))
+'''
+SPELLINGS = [("src", "job.py"), ("src", "./job.py"), ("src", "sub/../job.py"), ("src", "ABS"), (".", "src/job.py"),
+             (".", "./src/job.py"), ("src/sub", "../job.py"), (".", "src/sub/../job.py")]
+
+
+def plan(tier, seed):
+    for c in _c02.plan(tier, seed):
+        yield c
+    for i in range(N_SCRIPT[tier] if not os.environ.get("VERIF_RUNS") else 4):
+        rng = random.Random(H(seed, PROP, "script", i))
+        yield {"script": True, "runs": [rng.randrange(len(SPELLINGS)) for _ in range(rng.randint(3, 5))]}
+
+
+def run_script_case(case):
+    root = tempfile.mkdtemp(prefix="c06s_", dir="/dev/shm")
+    try:
+        os.makedirs(os.path.join(root, "src", "sub"))
+        with open(os.path.join(root, "src", "job.py"), "w") as fh:
+            fh.write(SCRIPT)
+        cache = os.path.join(root, "cache")
+        env = dict(os.environ, PYTHONPATH=REPO, PYTHONDONTWRITEBYTECODE="1")
+        verdict = None
+        h = hashlib.sha256()
+        total = 0
+        for k, si in enumerate(case["runs"]):
+            cwd, sp = SPELLINGS[si]
+            if sp == "ABS":
+                sp = os.path.join(root, "src", "job.py")
+            p = subprocess.run(["/venv/bin/python", "-B", sp, cache], cwd=os.path.join(root, cwd), env=env, capture_output=True,
+                               text=True, timeout=120)
+            line = [l for l in p.stdout.splitlines() if l.startswith("RESULT ")]
+            if p.returncode or not line:
+                return {"verdict": None, "harness_error": "script run failed: %s" % p.stderr[-400:]}
+            n, chk, vals = eval(line[-1][7:])
+            h.update(repr((si, n, chk)).encode())
+            total += n
+            want_vals = [("main", 1, 2), ("main", 3, 4), ("main", 1, 2)]
+            if verdict is None and vals != want_vals:
+                verdict = {"class": "wrong_value", "detail": "run %d (%s from %s): %s" % (k, SPELLINGS[si][1], cwd, vals), "sig": {"what": "wrong_value", "main_script": True}}
+            exp_n = 2 if k == 0 else 0
+            if verdict is None and (n != exp_n or chk != [k > 0, k > 0]):
+                verdict = {"class": "hit_miss_mismatch", "detail": "a script caching its own function, run %d times sharing one cache directory "
+                           "(spellings %s): run %d (`python %s` from %s/) executed the function %d times, expected %d; "
+                           "check_call_in_cache %s" % (len(case["runs"]), [SPELLINGS[j][1] for j in case["runs"]], k, SPELLINGS[si][1], cwd, n, exp_n, chk),
+                           "sig": {"what": "hit_miss_mismatch", "main_script": True}}
+        return {"verdict": verdict, "digest": h.hexdigest()[:24], "shape": "script:" + h.hexdigest()[:12], "steps": len(case["runs"]), "switches": 0,
+                "sim_time": 0.0, "faults": {"process_restart": len(case["runs"]) - 1},
+                "probes": {"main_script_history": 1, "distinct_spellings_of_the_script_path": len(set(case["runs"]))},
+                "nontrivial": len(set(case["runs"])) > 1, "sample": {"script_runs": [SPELLINGS[j] for j in case["runs"]]}}
+    finally:
+        shutil.rmtree(root, ignore_errors=True)
 
 
 def run_case(case):
+    if case.get("script"):
+        return run_script_case(case)
     return _c02.run_case(case, oracle="C06")
+
+
+def shrink(case):
+    if case.get("script"):
+        r = case["runs"]
+        for k in range(len(r)):
+            if len(r) > 2:
+                yield dict(case, runs=r[:k] + r[k + 1:])
+        return
+    for c in _shrink(case):
+        yield c
